@@ -257,6 +257,25 @@ def model_vs_reader(pq, data, lf):
     return bad, n
 
 
+def chunk_model_cells(pq, data, lf, tbl):
+    """Impl/RChunk.rd_chunk on every column chunk of the file -> {name: [cells over the row groups]} or (None, why)"""
+    from harness import pqfile
+    fmd, _ = pqfile.read_footer(data)
+    out = {l["name"]: [] for l in lf["leaves"]}
+    for rg in fmd.row_groups:
+        for col, l in zip(rg.columns, lf["leaves"]):
+            m = col.meta_data
+            start = m.data_page_offset if m.dictionary_page_offset is None else min(m.data_page_offset, m.dictionary_page_offset)
+            chunk = data[start:start + m.total_compressed_size]
+            inplace = 1 if l["type"] in (1, 2, 3, 4, 5) else 0
+            r = pq.call("fmt_rd_chunk", inplace, l["type"], l["tlen"], 1 if l["optional"] else 0, m.codec or 0, m.num_values, chunk,
+                        [list(p) for p in tbl])
+            if r[0] != b"ok":
+                return None, "%s %s" % (r[0].decode(), r[1].decode() if len(r) > 1 else "")
+            out[l["name"]].extend([None if c == [] else c for c in r[1]])
+    return out, None
+
+
 def run_case(lf, table, scratch, cats=False):
     """encode with the spec encoder, read with fastparquet -> dict(outcome, problems, ...)"""
     from harness import fmtlib
@@ -282,6 +301,12 @@ def run_case(lf, table, scratch, cats=False):
         except Exception as e:    # noqa
             import traceback
             res["model_bad"] = [({"harness": "model_vs_reader"}, "exception", traceback.format_exc()[-600:])]
+    res["chunk_model"] = None
+    if not features(lf)["raw"]:
+        try:
+            res["chunk_model"] = chunk_model_cells(pq, data, lf, tbl)
+        except Exception as e:    # noqa
+            res["chunk_model"] = (None, "harness: %s" % e)
     fn = os.path.join(scratch, "c03.parquet")
     with open(fn, "wb") as f:
         f.write(data)
@@ -310,6 +335,7 @@ def run_case(lf, table, scratch, cats=False):
             res["problems"].append(("dtype", "column %s (%s): dtype %s, schema implies %s" % (l["name"], l["tag"], s.dtype, "/".join(DTYPES[l["tag"]]))))
         got = fp_cells(s, l)
         exp = table[l["name"]]
+        res.setdefault("fp_cells", {})[l["name"]] = got
         if len(got) != len(exp):
             continue
         bad = [(i, e, g) for i, (e, g) in enumerate(zip(exp, got)) if not cell_ok(e, g, l)]
@@ -317,6 +343,24 @@ def run_case(lf, table, scratch, cats=False):
             res["problems"].append(("decode", "column %s (%s) row %d: file encodes %r, fastparquet returns %r" % (l["name"], l["tag"], i, e, g)))
     if res["problems"]:
         res["outcome"] = "differs"
+    # model of the chunk reader against what the real reader returned (cell by cell, physical bit patterns)
+    cm = res.get("chunk_model")
+    res["chunk_corr"] = None
+    if cm is not None and not cats:
+        cells, why = cm
+        if cells is None:
+            res["chunk_corr"] = ("model: " + why, "reader: ok")
+        else:
+            for l in lf["leaves"]:
+                got = res.get("fp_cells", {}).get(l["name"])
+                mc = cells[l["name"]]
+                if got is None or len(got) != len(mc) or not all(cell_ok(e, g, l) for e, g in zip(mc, got)):
+                    res["chunk_corr"] = ("column %s: %r" % (l["name"], mc[:8]), "%r" % (None if got is None else got[:8]))
+                    break
+            else:
+                res["chunk_corr"] = "agree"
+    res.pop("fp_cells", None)
+    res.pop("chunk_model", None)
     return res
 
 
@@ -358,7 +402,13 @@ def _job_testdata(exp):
         return res
     res["outcome"] = "ok"
     res["digest"] = hashlib.sha256(df.to_json(default_handler=repr).encode()).hexdigest()[:16]
-    if r.get("verdict") == "ok":
+    if r.get("verdict") == "bad":
+        # third-party bookkeeping quirks (legacy writers) do not prevent decoding: compare what the lenient spec decoder reads
+        d = fmtlib.Fmt(_pq()).decode(data, False)
+        if d[0] == "ok":
+            r = {"verdict": "decoded", "leaves": d[1], "rgs": d[2]}
+            res["valid"] += " | lenient decode ok"
+    if r.get("verdict") in ("ok", "decoded"):
         cols = fmtlib.columns_of(r["leaves"], r["rgs"])
         for l in r["leaves"]:
             tag = leaf_tag(l)
@@ -619,6 +669,12 @@ def run(ctx):
                 ctx.correspondence("Impl/RPages.rd_data_page = core.read_data_page on every v1 data page (safe widths)", {}, 1, 1)
             for mcase, mo, io in res.get("model_bad", []):
                 ctx.correspondence("Impl/RPages.rd_data_page = core.read_data_page on every v1 data page (safe widths)", mcase, mo, io)
+            cc = res.get("chunk_corr")
+            if cc == "agree":
+                ctx.correspondence("Impl/RChunk.rd_chunk (page loop, v1+v2 page models) = cells core.read_col returns, per file (safe widths)", {}, 1, 1)
+            elif cc and res["outcome"] == "ok":
+                ctx.correspondence("Impl/RChunk.rd_chunk (page loop, v1+v2 page models) = cells core.read_col returns, per file (safe widths)",
+                                   {"lfile": lf}, cc[0], cc[1])
         if exp["expect"] == "refuse":
             if res["outcome"] != "raised":
                 ctx.fail(classify(lf, res, "not-refused"), case, "a file using an unsupported encoding was decoded to values instead of being refused")
